@@ -99,9 +99,23 @@ def gen_program(rng: random.Random) -> dict:
         v = rng.randrange(1 << 24)
         return [num(v)], v
 
+    tables: dict = {}
+    ips_records: list = []
+    if rng.random() < 0.2:
+        # a character table is loaded: it is what .text uses; .ascii keeps emitting ASCII
+        tables["chars.tbl"] = [[f"{0x90 + i:02x}", ch] for i, ch in enumerate("abcABC 0123")] + [["a1b2", "ab"], ["ff", "!"]]
+        prog.append({"k": "table", "f": "chars.tbl"})
     try:
         for _ in range(rng.randint(2, 8)):
             c = rng.random()
+            if len(expected) and not ips_records and rng.random() < 0.06:
+                # a patch is included between two directives: the data around it keeps its place
+                from vf.ref import ips as ipsref
+
+                recs = [{"off": 0x300000 + rng.randrange(0x1000), "data": rng.randbytes(rng.randint(1, 9))}, {"off": 0x310000, "rle": (rng.randint(1, 5), 0x77)}]
+                files["patch.ips"] = ipsref.build(recs)
+                ips_records = [(r_["off"], ipsref.payload(r_)) for r_ in recs]
+                prog.append({"k": "include_ips", "f": "patch.ips", "delta": E(0)})
             if c < 0.62:
                 d = rng.choice(list(WIDTH))
                 es = []
@@ -158,7 +172,7 @@ def gen_program(rng: random.Random) -> dict:
         rm.advance(cfg, addr, len(expected)) is None and (_ for _ in ()).throw(OverflowError())
     except OverflowError:
         return gen_program(rng)
-    return {"prog": prog, "files": files, "tables": {}, "rom": rom, "addr": addr, "expected": bytes(expected), "labels": labels}
+    return {"prog": prog, "files": files, "tables": tables, "rom": rom, "addr": addr, "expected": bytes(expected), "labels": labels, "ips_records": [[o, d.hex()] for o, d in ips_records]}
 
 
 def gen_shadow_program(rng: random.Random) -> dict:
@@ -192,7 +206,7 @@ def check_program(res: Res, p: dict) -> None:
     src = source(p["prog"])
     digest = [(k, len(v), hash(bytes(v)) & 0xFFFFFFFF) for k, v in p["files"].items()]
     wit = {"src": src, "rom": p["rom"], "addr": p["addr"], "files": {k: bytes(v).hex() if len(v) <= 4096 else f"len={len(v)}" for k, v in p["files"].items()},
-           "expected": p["expected"].hex() if len(p["expected"]) <= 4096 else f"len={len(p['expected'])}", "p": {"prog": p["prog"], "rom": p["rom"]} if all(len(v) <= 4096 for v in p["files"].values()) else None}
+           "expected": p["expected"].hex() if len(p["expected"]) <= 4096 else f"len={len(p['expected'])}", "p": {"prog": p["prog"], "rom": p["rom"], "tables": p.get("tables") or {}, "ips_records": p.get("ips_records") or []} if all(len(v) <= 4096 for v in p["files"].values()) else None}
     r, _, events = run_ir(p, tap=True)
     res.case((src, digest), r.ok)
     cfg = rm.config_for(p["rom"])
@@ -200,11 +214,28 @@ def check_program(res: Res, p: dict) -> None:
         res.violate("valid-data-rejected", f"valid data program rejected: {r.err_kind}: {r.err_text[:200]}", wit)
         return
     exp = p["expected"]
-    got = b"".join(b for _, b in r.blocks)
     off = rm.offset(cfg, p["addr"])
-    if len(r.blocks) != (1 if exp else 0) or (r.blocks and r.blocks[0][0] != off):
+    blocks = [(a, bytes(b)) for a, b in r.blocks]
+    if p.get("ips_records"):
+        # the records of the included patch are written where the patch says; what remains is the program's own data, in one run
+        res.count("with_included_patch")
+        for o, h in p["ips_records"]:
+            if (o, bytes.fromhex(h)) in blocks:
+                blocks.remove((o, bytes.fromhex(h)))
+            else:
+                res.violate("data-layout", f"the included patch's record at {o:#x} is missing from {[(hex(a), len(b)) for a, b in blocks]}", wit)
+                return
+        blocks = [b for b in blocks if len(b[1])]
+        pos = off
+        for a, b in blocks:
+            if a != pos:
+                res.violate("data-layout", f"data around an included patch: a block starts at {a:#x} where the directives' bytes continue at {pos:#x}: {[(hex(a), len(b)) for a, b in blocks]}", wit)
+                return
+            pos += len(b)
+    elif len(blocks) != (1 if exp else 0) or (blocks and blocks[0][0] != off):
         res.violate("data-layout", f"expected one block at {off:#x}, got {[(hex(a), len(b)) for a, b in r.blocks]}", wit)
         return
+    got = b"".join(b for _, b in blocks)
     if got != exp:
         k = next((j for j in range(min(len(got), len(exp))) if got[j] != exp[j]), min(len(got), len(exp)))
         res.violate("data-bytes", f"bytes differ at {k}: got {got[max(0, k - 4):k + 10].hex()} expected {exp[max(0, k - 4):k + 10].hex()} (lengths {len(got)}/{len(exp)})", wit)
@@ -275,6 +306,6 @@ def replay(w: dict) -> Res:
         res.undecided("replay file carries no program (files too large); re-run the shard")
         return res
     files = {k: bytes.fromhex(v) for k, v in w["files"].items()}
-    p = {"prog": w["p"]["prog"], "files": files, "tables": {}, "rom": w["rom"], "addr": w["addr"], "expected": bytes.fromhex(w["expected"]), "labels": {}}
+    p = {"prog": w["p"]["prog"], "files": files, "tables": w["p"].get("tables") or {}, "ips_records": w["p"].get("ips_records") or [], "rom": w["rom"], "addr": w["addr"], "expected": bytes.fromhex(w["expected"]), "labels": {}}
     check_program(res, p)
     return res
